@@ -3,6 +3,7 @@ import hashlib
 import os
 import struct
 import sys
+import time
 
 sys.path.insert(0, os.path.dirname(os.path.dirname(os.path.abspath(__file__))))
 sys.path.insert(0, os.path.dirname(os.path.abspath(__file__)))
@@ -129,6 +130,22 @@ def hexb(x):
     return VB(bytes.fromhex(x))
 
 
+def cmp_b(ref, out):
+    """mirror of DatModel.cmp_res: 1 when equal to the reference"""
+    if isinstance(out, dict):
+        return VE(out["err"])
+    if isinstance(ref, str) and ref == out:
+        return VI(1)
+    return hexb(out)
+
+
+def fields_from_impl_cmp(ref, sig, f):
+    return VL([VI(KLASS.get(f["cls"], 9)), VI(f["major"]), VI(f["minor"]), VI(f["socc"]), hexb(f["uuid"]), VI(f["socu"]),
+               VI(f["vu"]), VI(f["beacon"]), cmp_b(ref["rot_meta"], f["rot_meta"]),
+               VI(1) if f["dck"] == ref["dck"] else key_from_impl(f["dck"]),
+               VI(1) if f["rot"] == ref["rot"] else key_from_impl(f["rot"]), cmp_b(sig, f["sig"])])
+
+
 def fields_from_impl(f):
     return VL([VI(KLASS.get(f["cls"], 9)), VI(f["major"]), VI(f["minor"]), VI(f["socc"]), hexb(f["uuid"]), VI(f["socu"]),
                VI(f["vu"]), VI(f["beacon"]), e_or(f["rot_meta"], hexb), key_from_impl(f["dck"]), key_from_impl(f["rot"]),
@@ -148,7 +165,8 @@ def dc_value_from_impl(r):
         if "err" in p:
             pp = VE(p["err"])
         else:
-            pp = VL([fields_from_impl(p["fields"]), e_or(p["eq"], lambda b: VI(int(b))), e_or(p["reexport"], hexb)])
+            pp = VL([fields_from_impl_cmp(c, r.get("sig") or "", p["fields"]), e_or(p["eq"], lambda b: VI(int(b))),
+                     cmp_b(ex, p["reexport"])])
     return VL([VI(KLASS.get(c["cls"], 9)), VI(c["major"]), VI(c["minor"]), e_or(ex, hexb), pp, e_or(r["hash"], hexb)])
 
 
@@ -162,6 +180,25 @@ def strip_tbs(v):
 
 def same(a, b):
     return a == b
+
+
+def first_diff(a, b, path=""):
+    """where two values differ (for the log)"""
+    if a[0] != b[0]:
+        return f"{path}: {str(a)[:120]} vs {str(b)[:120]}"
+    if a[0] == "l":
+        if len(a[1]) != len(b[1]):
+            return f"{path}: list lengths {len(a[1])} vs {len(b[1])}"
+        for i, (x, y) in enumerate(zip(a[1], b[1])):
+            if x != y:
+                return first_diff(x, y, f"{path}/{i}")
+        return None
+    if a[1] != b[1]:
+        if a[0] == "b":
+            k = next((i for i, (x, y) in enumerate(zip(a[1], b[1])) if x != y), min(len(a[1]), len(b[1])))
+            return f"{path}: bytes differ at {k} (len {len(a[1])} vs {len(b[1])}): {a[1][k:k+16].hex()} vs {b[1][k:k+16].hex()}"
+        return f"{path}: {str(a)[:120]} vs {str(b)[:120]}"
+    return None
 
 
 def has_notmodelled(v):
@@ -351,7 +388,7 @@ def derived_streams(tier, rng, w, dc_cases, dc_results):
     seen, cs = set(), []
     pick = []
     for c, b in exports:
-        key = (w.facts(c)["ele"], ktype(c["keys"][0]), len(c["keys"]))
+        key = (w.facts(c)["ele"], ktype(c["keys"][0]), len(c["keys"]) if thorough else 0)
         if key not in seen or (thorough and rng.random() < 0.15):
             seen.add(key)
             pick.append((c, b))
@@ -664,6 +701,13 @@ def spec_dac(data, w):
 
 # ------------------------------------------------------------------------------------------------ model expressions
 def lit(v):
+    """vlib.coq_lit, with long byte strings as big-endian 128-byte chunks: VBytes (bx [0x..%N; ...] last)"""
+    t, x = v
+    if t == "b" and len(x) > 48:
+        chunks = [x[i:i + 128] for i in range(0, len(x), 128)]
+        return "VBytes (bx [" + "; ".join("0x" + c.hex() + "%N" for c in chunks) + f"] {len(chunks[-1])})"
+    if t == "l":
+        return "VList [" + "; ".join("(" + lit(y) + ")" for y in x) + "]"
     return vlib.coq_lit(v)
 
 
@@ -710,13 +754,18 @@ def run(tier):
             flat.append(c)
             owner.append(name)
 
-    def run_impl_chunks(cases, chunk=120):
-        res = []
-        for i in range(0, len(cases), chunk):
-            part = [{k: v for k, v in c.items() if not k.startswith("_")} for c in cases[i:i + chunk]]
-            res += vlib.run_impl("c15_impl.py", {"mode": "cases", "keydir": KEYDIR, "cases": part}, timeout=3000)["results"]
-        return res
+    def run_impl_chunks(cases, chunk=40):
+        """the implementation subprocesses run a few at a time (each case costs 0.1-0.3 s of key loading and signing)"""
+        from concurrent.futures import ThreadPoolExecutor
+        parts = [[{k: v for k, v in c.items() if not k.startswith("_")} for c in cases[i:i + chunk]]
+                 for i in range(0, len(cases), chunk)]
+        with ThreadPoolExecutor(max_workers=6) as ex:
+            outs = list(ex.map(lambda part: vlib.run_impl("c15_impl.py", {"mode": "cases", "keydir": KEYDIR, "cases": part},
+                                                          timeout=3000)["results"], parts))
+        return [r for o in outs for r in o]
+    t_impl = time.time()
     impl = run_impl_chunks(flat)
+    vlib.log(f"  implementation: {len(flat)} first-round cases in {time.time() - t_impl:.1f} s")
     # second round: inputs derived from exported credentials
     d2 = derived_streams(tier, rng, w, flat, impl)
     # challenge bytes for validate cases need the credential's own hash: build them now
@@ -745,7 +794,9 @@ def run(tier):
         for c in cs:
             flat2.append(c)
             owner2.append(name)
+    t_impl = time.time()
     impl2 = run_impl_chunks(flat2, chunk=600)
+    vlib.log(f"  implementation: {len(flat2)} derived cases in {time.time() - t_impl:.1f} s")
     streams.update(d2)
     flat += flat2
     owner += owner2
@@ -779,6 +830,7 @@ def run(tier):
 
     # ---- correspondence: the Coq model on the same cases
     ndis, nskip, ncmp = 0, 0, 0
+    dis_samples = []
     if model_ok:
         exprs, plan = [], []
         for i, (c, r) in enumerate(zip(flat, impl)):
@@ -812,7 +864,9 @@ def run(tier):
                     VB(bytes.fromhex(c["dc"]))]) + "]")
                 plan.append((i, "validate"))
         try:
+            t_model = time.time()
             mres = vlib.run_model_cases("c15", "Value RotModel DatModel", exprs, shard=(60 if tier == "thorough" else 30), timeout=1500)
+            vlib.log(f"  model: {len(exprs)} expressions in {time.time() - t_model:.1f} s")
             for (i, kind), mv in zip(plan, mres):
                 c, r = flat[i], impl[i]
                 if has_notmodelled(mv):
@@ -825,21 +879,23 @@ def run(tier):
                     iv = dc_value_from_impl(r)
                     mv2, tbs = strip_tbs(mv)
                     ok = same(iv, mv2)
-                    if ok and tbs is not None and tbs[0] == "b" and mv2[1][3][0] == "b" and not mv2[1][3][1].startswith(tbs[1]):
-                        ok = False
-                    detail = f"impl {str(iv)[:300]} model {str(mv2)[:300]}"
+                    if ok and tbs is not None and mv2[0] == "l" and mv2[1][3][0] == "b" and tbs != VI(1):
+                        ok = False          # the signed bytes are not a prefix of the exported credential
+                    detail = "impl vs model " + str(first_diff(iv, mv2))
                 elif kind == "parse":
                     p = r["parse"]
-                    iv = VE(p["err"]) if "err" in p else VL([fields_from_impl(p["fields"]), e_or(p["reexport"], hexb), e_or(p["hash"], hexb)])
+                    iv = VE(p["err"]) if "err" in p else VL([
+                        fields_from_impl(p["fields"]),
+                        e_or(p["reexport"], lambda h: VI(1) if c["data"].startswith(h) else hexb(h)), e_or(p["hash"], hexb)])
                     ok = same(iv, mv)
-                    detail = f"impl {str(iv)[:300]} model {str(mv)[:300]}"
+                    detail = "impl vs model " + str(first_diff(iv, mv))
                 elif kind == "dac":
                     a = r["dac"]
                     iv = VE(a["err"]) if "err" in a else VL([VI(a["major"]), VI(a["minor"]), VI(a["socc"]), hexb(a["uuid"]), VI(a["revocation"]),
                                                             hexb(a["rkth"]), VI(a["pinned"]), VI(a["default"]), VI(a["vu"]), hexb(a["challenge"]),
                                                             e_or(a["export"], hexb)])
                     ok = same(iv, mv)
-                    detail = f"impl {str(iv)[:300]} model {str(mv)[:300]}"
+                    detail = "impl vs model " + str(first_diff(iv, mv))
                 elif kind == "validate":
                     v = r["validate"]
                     iv = VI(0) if v == "ok" else VE(v["err"])
@@ -852,11 +908,13 @@ def run(tier):
                     # model: [signed message; exported response]
                     ok = mv[0] == "l" and mv[1][1] == VB(b)
                     if ok:
-                        # the message the model says is signed must be the one that verifies (independent check)
+                        # the message the model says is signed (1 = response without signature ++ challenge) must be the
+                        # one that verifies under the DCK (independent check)
                         f = w.facts(c)
                         dck = w.pool[c["dck"]]
                         sl = sig_len(dck)
-                        if regular(c, w) and mv[1][0][0] == "b" and not verify_sig(dck, mv[1][0][1], b[-sl:], f["pss"]):
+                        msg = (b[:-sl] + bytes.fromhex(rq["challenge"])) if mv[1][0] == VI(1) else (mv[1][0][1] if mv[1][0][0] == "b" else b"")
+                        if regular(c, w) and not verify_sig(dck, msg, b[-sl:], f["pss"]):
                             ok = False
                     detail = f"response {rs[1][:80]} model {str(mv)[:200]}"
                 if not ok:
@@ -865,9 +923,17 @@ def run(tier):
                     if kc and not oracle_dc(c, r, w):
                         continue
                     ndis += 1
-                    if ndis <= 8:
-                        vlib.log(f"  disagreement [{kind}] case {str({k: v for k, v in c.items() if k != 'data'})[:300]}: {detail}")
-            rep.obligation("correspondence:model=implementation on all cases", ndis == 0, f"{ndis} disagreements" if ndis else "")
+                    if ndis <= 40:
+                        dis_samples.append({"kind": str(kind), "case": {k: v for k, v in c.items() if not k.startswith("_")},
+                                            "impl": r, "model": str(mv)[:4000], "detail": detail})
+                    if ndis <= 25:
+                        vlib.log(f"  disagreement [{kind}] case {str({k: v for k, v in c.items() if k not in ('data', 'requests', 'dc', 'dac')})[:260]} {c.get('data', '')[:48]}: {detail}")
+            if dis_samples:
+                import json
+                with open(os.path.join(vlib.WORK, PID, "last_disagreements.json"), "w") as fh:
+                    json.dump(dis_samples, fh, indent=1, default=str)
+            rep.obligation("correspondence:model=implementation on all cases", ndis == 0,
+                           (f"{ndis} disagreements; first: " + "; ".join(d["detail"][:200] for d in dis_samples[:5])) if ndis else "")
         except Exception as ex:  # noqa
             rep.obligation("correspondence:model evaluation", False, repr(ex))
     else:
